@@ -386,7 +386,7 @@ func run(c *vf.Ctx) {
 		"(2) model-encoded PFX grid: password{9 shapes incl. BMP length 64/66} x iterations{1,2,2048 (thorough +3,1000,4096)} x key{3} x cipher pair{RC2/3DES,3DES/3DES,RC2/RC2} x salt-length class{8,1,20,64,65 rotating; thorough all} " +
 		"x empty-password encodings{00 00, empty string} + layout variants{key first, cert unencrypted, attribute order, no attributes, non-ASCII name, extra certificate, mac/pbe iterations differ}; " +
 		"(3) wrong passwords confirmed wrong by the model for every case; (4) malformed-with-valid-MAC set; " +
-		"(5) faults: every offset x {0x00,0xFF,b^1} and every truncation of 2 files (thorough: 3 files, one with all 255 values); " +
+		"(5) faults: every offset x {0x00,0xFF,b^1} and every truncation of 2 files (thorough: 3 files, two of them with all 255 values); " +
 		"non-trivial = distinct (source,password class,iterations,key,ciphers,salt class,layout) decoded to the exact key+certificate, and distinct (file,offset) whose fault is detected; " +
 		"oracle = fixed key/certificate fixtures + verif/ref/p12ref (validated against OpenSSL's PKCS12_key_gen_uni KATs, the classic smeg/queeg vectors, and openssl reading its output)")
 	c.Assume("crypto/x509 parses the PKCS#8 / certificate fixtures correctly (expected values); crypto/des, crypto/sha1, crypto/hmac are correct; RC2 per verif/ref/rc2ref")
@@ -743,7 +743,7 @@ func faults(c *vf.Ctx, keys []keyMat, cases []tcase) {
 			break
 		}
 	}
-	targets := []target{{"openssl rsa1024 RC2+3DES iter 2048", t1.pfx, t1.pwc.pw, t1.exp.km, false}, {"model p256 3DES+3DES iter 1", t2.pfx, t2.pwc.pw, t2.exp.km, c.Thorough}}
+	targets := []target{{"openssl rsa1024 RC2+3DES iter 2048", t1.pfx, t1.pwc.pw, t1.exp.km, c.Thorough}, {"model p256 3DES+3DES iter 1", t2.pfx, t2.pwc.pw, t2.exp.km, c.Thorough}}
 	if c.Thorough {
 		t3 := find("ossl-p256-E-4.p12")
 		targets = append(targets, target{"openssl p256 RC2+RC2 iter 4096", t3.pfx, t3.pwc.pw, t3.exp.km, false})
